@@ -577,6 +577,7 @@ class Out:
     def __init__(self):
         self.defs = []          # (name, params, body lines, available, why)
         self.status = {}
+        self.tables = {}        # name -> list of (key, value) strings, or None when unavailable
 
     def add(self, name, params, env, value, classes=""):
         if isinstance(value, Exception) or value is None:
@@ -719,7 +720,88 @@ def translate(src_dir):
     except FileNotFoundError:
         cs = ""
     spline(cs, out)
+    tables(rd, cs, out)
     return out
+
+
+def norm(t):
+    return re.sub(r"\s+", "", t).rstrip(",")
+
+
+def match_arms(body):
+    """`pat => expr,` arms of a match body at nesting depth 0"""
+    arms, depth, start, i = [], 0, 0, 0
+    while i < len(body):
+        ch = body[i]
+        if ch in "([{":
+            depth += 1
+        elif ch in ")]}":
+            depth -= 1
+            if depth == 0 and ch == "}" and body[i + 1:i + 2] != ",":
+                arms.append(body[start:i + 1]); start = i + 1
+        elif ch == "," and depth == 0:
+            arms.append(body[start:i]); start = i + 1
+        i += 1
+    if body[start:].strip():
+        arms.append(body[start:])
+    out = []
+    for a in arms:
+        if "=>" in a:
+            l, r = a.split("=>", 1)
+            out.append((norm(l), norm(r)))
+    return out
+
+
+def tables(rd, cs, out):
+    """finite decision tables of the crate, as text: minimum data lengths, the two `specialize` maps, the selection of the
+    extrapolation mode, the order of the builders' validation steps"""
+    # minimum data length of every strategy builder
+    t = []
+    for rel, name in (("interp1d/strategies/linear.rs", "Linear"), ("interp1d/strategies/cubic_spline.rs", "CubicSpline"),
+                      ("interp2d/strategies/bilinear.rs", "Bilinear")):
+        try:
+            m = re.findall(r"const\s+MINIMUM_DATA_LENGHT\s*:\s*usize\s*=\s*(\d+)\s*;", rd(rel))
+        except FileNotFoundError:
+            m = []
+        t.append((name, m[0] if len(m) == 1 else "?"))
+    out.tables["minLen"] = t
+    # specialize maps
+    for key, hdr in (("specializeInternal", r"impl\s*<\s*T\s*:\s*SplineNum\s*>\s*InternalBoundary\s*<\s*T\s*>"),
+                     ("specializeSingle", r"impl\s*<\s*T\s*:\s*SplineNum\s*>\s*SingleBoundary\s*<\s*T\s*>")):
+        try:
+            m = re.search(hdr, cs)
+            if not m:
+                raise Unavailable(key)
+            blk = cs[m.end():]
+            blk = blk[blk.index("{"):]
+            blk = blk[:match_brace(blk, 0)]
+            fb = fn_body(blk, r"fn\s+specialize\s*\(\s*self\s*\)\s*->\s*Self")
+            mb, _, _ = block_after(fb, r"match\s+self\s*")
+            arms = match_arms(mb)
+            arms = [(l.replace("InternalBoundary::", "").replace("SingleBoundary::", "").replace("Self::", ""),
+                     re.sub(r"\.unwrap_or_else\(\|\|unimplemented!\(\)\)", "", r.replace("Self::", "").replace("InternalBoundary::", "").replace("SingleBoundary::", "")))
+                    for l, r in arms]
+            out.tables[key] = arms
+        except (Unavailable, ValueError):
+            out.tables[key] = None
+    # extrapolation mode selected by CubicSpline::build
+    try:
+        m = re.search(r"let\s+extrapolate\s*=\s*(if\s.*?)\s*;\s*Ok\s*\(\s*CubicSplineStrategy", cs, re.S)
+        out.tables["extrapolateMode"] = [("expr", norm(m.group(1)))] if m else None
+    except Exception:
+        out.tables["extrapolateMode"] = None
+    # validation steps of the two builders, in source order: which error kind each `return Err(..)` of build() carries
+    for key, rel in (("validate1", "interp1d/mod.rs"), ("validate2", "interp2d/mod.rs")):
+        try:
+            src = rd(rel)
+            m = re.search(r"pub\s+fn\s+build\s*\(\s*self\s*\)", src)
+            fb = fn_body(src[m.start():], r"pub\s+fn\s+build\s*\(\s*self\s*\)")
+            steps = []
+            for mm in re.finditer(r"if\s+(.*?)\{\s*return\s+Err\s*\(\s*(?:BuilderError::)?(\w+)", fb, re.S):
+                steps.append((norm(mm.group(1)), mm.group(2)))
+            out.tables[key] = steps or None
+        except Exception:
+            out.tables[key] = None
 
 
 ENDS = ["x0", "x1", "x2", "xl1", "xl2", "xl3", "y0", "y1", "y2", "yl1", "yl2", "yl3"]
@@ -1018,6 +1100,81 @@ variable {α : Type} [Add α] [Sub α] [Mul α] [Div α] [Neg α] [NatCast α]
 """
 
 
+CTOR = {"NotAKnot": ".notAKnot", "Natural": ".natural", "Clamped": ".clamped", "Periodic": ".periodic"}
+KIND = {"ShapeError": ".shapeError", "NotEnoughData": ".notEnoughData", "Monotonic": ".monotonic", "ValueError": ".valueError"}
+
+
+def lean_boundary(t):
+    """a boundary value as the source spells it -> the model's constructor term (None if not understood)"""
+    if t in CTOR:
+        return CTOR[t]
+    m = re.fullmatch(r"Mixed\{left:(\w+),right:(\w+),?\}", t)
+    if m and m.group(1) in CTOR and m.group(2) in CTOR:
+        return f".mixed {CTOR[m.group(1)]} {CTOR[m.group(2)]}"
+    m = re.fullmatch(r"(FirstDeriv|SecondDeriv)\(cast\((0|0\.0)\)\)", t)
+    if m:
+        return ("." + m.group(1)[0].lower() + m.group(1)[1:]) + " c0"
+    return None
+
+
+def emit_tables(out):
+    L = ["section\nvariable {α : Type} [NatCast α]\n\n"]
+    tb = out.tables
+
+    def unavailable(name, sig, dflt):
+        L.append(f"def {name}_available : Bool := false\n/-- not translated -/\ndef {name} {sig} := {dflt}\n\n")
+        out.status["table:" + name] = "unavailable: not located or not understood"
+
+    # minimum lengths
+    ml = dict(tb.get("minLen") or [])
+    if all(ml.get(k, "?").isdigit() for k in ("Linear", "CubicSpline", "Bilinear")):
+        L.append("def minLen_available : Bool := true\n/-- `MINIMUM_DATA_LENGHT` of Linear, CubicSpline, Bilinear -/\n"
+                 f"def minLen : Nat × Nat × Nat := ({ml['Linear']}, {ml['CubicSpline']}, {ml['Bilinear']})\n\n")
+    else:
+        unavailable("minLen", ": Nat × Nat × Nat", "(0, 0, 0)")
+    # specialize maps as functions
+    for name, ty in (("specializeInternal", "InternalBoundary"), ("specializeSingle", "SingleBoundary")):
+        rows = tb.get(name)
+        arms, ok = [], rows is not None and len(rows) >= 1 and rows[-1] == ("_", "self")
+        if ok:
+            for l, r in rows[:-1]:
+                ll, rr = lean_boundary(l), lean_boundary(r)
+                if ll is None or rr is None:
+                    ok = False
+                    break
+                arms.append(f"  | {ll} => {rr}")
+        if ok:
+            L.append(f"def {name}_available : Bool := true\n/-- `{ty}::specialize` -/\n"
+                     f"def {name} : {ty} α → {ty} α\n" + "\n".join(arms) + "\n  | b => b\n\n")
+        else:
+            unavailable(name, f": {ty} α → {ty} α", "fun b => b")
+    # extrapolation mode
+    em = tb.get("extrapolateMode")
+    want = "if!self.extrapolate{Extrapolate::No}elseifmatches!(self.boundary,BoundaryCondition::Periodic){Extrapolate::Periodic}else{Extrapolate::Yes}"
+    m = em and re.fullmatch(r"if!self\.extrapolate\{Extrapolate::(\w+)\}elseifmatches!\(self\.boundary,BoundaryCondition::Periodic\)\{Extrapolate::(\w+)\}else\{Extrapolate::(\w+)\}", em[0][1])
+    EX = {"No": "Extrapolate.no", "Yes": "Extrapolate.yes", "Periodic": "Extrapolate.periodic"}
+    if m and all(g in EX for g in m.groups()):
+        L.append("def extrapolateMode_available : Bool := true\n/-- the `Extrapolate` mode `CubicSpline::build` selects -/\n"
+                 "def extrapolateMode (ext periodic : Bool) : Extrapolate :=\n"
+                 f"  if !ext then {EX[m.group(1)]} else if periodic then {EX[m.group(2)]} else {EX[m.group(3)]}\n\n")
+    else:
+        unavailable("extrapolateMode", "(ext periodic : Bool) : Extrapolate", "Extrapolate.no")
+    # validation steps: the error kinds in source order
+    for name in ("validate1", "validate2"):
+        rows = tb.get(name)
+        if rows and all(k in KIND for _, k in rows):
+            conds = "; ".join(c for c, _ in rows).replace("-/", "- /")
+            L.append(f"def {name}_available : Bool := true\n/-- error kinds of the validation steps of `build()`, in source order ({conds}) -/\n"
+                     f"def {name} : List BKind := [" + ", ".join(KIND[k] for _, k in rows) + "]\n"
+                     f"/-- the conditions of those steps, whitespace removed -/\n"
+                     f"def {name}Conds : List String := [" + ", ".join('"' + c.replace('"', "'") + '"' for c, _ in rows) + "]\n\n")
+        else:
+            unavailable(name, ": List BKind", "[]")
+            L.append(f"def {name}Conds : List String := []\n\n")
+    L.append("end\n\n")
+    return "".join(L)
+
+
 def emit(out):
     L = [HEADER]
     order = sorted(out.defs, key=lambda d: 0 if d[0] == "calc_frac" else 1)
@@ -1040,6 +1197,8 @@ def emit(out):
             dflt = "false" if ty == "Bool" else params[0] if classes != "guess" else "x"
             L.append(f"/-- not translated: {out.status[name]} -/\ndef {name}{cls} {ps_decl} : {ty} := {dflt}\n\n")
     L.append("end\n\n")
+    L.append("/-! ### finite decision tables of the crate, translated from the source -/\n\n")
+    L.append(emit_tables(out))
     L.append("/-- kernels the translator could not locate or parse in the current source (tied by the correspondence runs only) -/\n")
     un = [n for n, s in out.status.items() if not s.startswith("translated")]
     L.append("def unavailable : List String := [" + ", ".join('"' + n + '"' for n in un) + "]\n\n")
@@ -1068,6 +1227,11 @@ def main():
             f.write(text)
         os.replace(tmp, out_path)
     st_path = os.path.splitext(out_path)[0] + ".status.json"
+    with open(st_path + f".tmp{os.getpid()}", "w") as f:
+        json.dump(out.status, f, indent=1)
+    os.replace(st_path + f".tmp{os.getpid()}", st_path)
+    for k, v in out.tables.items():
+        out.status["table:" + k] = "translated" if v is not None else "unavailable: not located"
     with open(st_path + f".tmp{os.getpid()}", "w") as f:
         json.dump(out.status, f, indent=1)
     os.replace(st_path + f".tmp{os.getpid()}", st_path)
